@@ -24,6 +24,14 @@ CHECKS = {
              "is called, and a no-follow snapshot of the whole sandbox before/after is judged by TLC (FsRemoveTrace.tla); seeded random larger trees go through the same judgement.",
         note="Trusted: TLC, the Lstat-based snapshot, os.Symlink; link scenarios on the OS backend only.",
         technique="TLA+ reference semantics + TLC exhaustive scenario enumeration; replay on real filesystems; TLC trace validation"),
+    "C08": dict(
+        category="model_checking", design_ref="DESIGN.md 5/C08",
+        text="FsExclude.tla defines matching of a small regular-expression AST on names (recursively, TLC evaluating string operators) and from it MustSkip (a component fully matched) and "
+             "MustProcess (no component contains a match); TLC enumerates every (tree, pattern set, operation) scenario with the two sets and checks they are disjoint. Each scenario is "
+             "materialised on both backends, the real walk / ls / ls -R / tree listing / sub-directories / copy / zip / remove / clean is run, and TLC judges the processed set against "
+             "MustSkip / MustProcess; invalid patterns must be rejected as 'invalid' before anything is touched (sandbox snapshot).",
+        note="Trusted: TLC, Go regexp source generated from the AST, snapshot of the sandbox. Known finding: Copy matches across the path separator.",
+        technique="TLA+ regex semantics + TLC exhaustive scenario enumeration; replay on real filesystems; TLC trace validation"),
     "C10": dict(
         category="model_checking", design_ref="DESIGN.md 5/C10",
         text="The statement (Clamp over limb-encoded integers, ranges derived from bit widths) is checked by TLC for range, identity, idempotence, "
